@@ -21,6 +21,7 @@ const (
 	pC17
 	pC08
 	pC14
+	pC10
 )
 
 const fnPostNewEvent = "(*github.com/couchbaselabs/rosmar.Collection).postNewEvent"
@@ -36,16 +37,39 @@ type kvCtx struct {
 	h0   uint64 // hlc.highestTime before the call
 	t0   uint32 // clock (as expiry) before the call
 	f1, f2, fo, fk *dcpFeed // C08: feeds on this collection (via this / another handle), on another collection, keys-only
+	ne0  uint32 // C14: next scheduled expiration before the call
+	cc0  int    // C10: commits before the call
 }
 
 // kvBegin: arbitrary invariant-satisfying bucket with two collections that may
 // hold the same keys, one addressed (collection, key).
 func kvBegin(mask int) *kvCtx {
-	env := verifWorld(true, 2, 2)
+	// C10 is about on-disk buckets (8 pooled connections); everything else runs on the
+	// single-connection in-memory configuration
+	env := verifWorld(mask&pC10 == 0, 2, 2)
 	k := &kvCtx{env: env, mask: mask, c: env.colls[0], coll: 1, key: verifKey("key")}
 	if mask&(pC08|pC14) == 0 {
 		// feed delivery and expiry scheduling are the subject of C08/C14, not of these clauses
 		verifCut(fnPostNewEvent)
+	}
+	if mask&pC10 != 0 {
+		nf := 1
+		if verifThorough() {
+			nf = 2
+		}
+		verifFaults(env.db, nf) // injected Begin/Exec/Commit failures (BUSY or I/O error)
+		k.cc0 = verifCommitCount(env.db)
+	}
+	if mask&pC14 != 0 {
+		// arbitrary expiry-manager state consistent with the table: every pending
+		// expiry is at or after the scheduled one (invariant clause 8)
+		k.ne0 = verifU32("nextExp")
+		verifAssume(verifOr(k.ne0 == 0, k.ne0 > kMaxDeltaTtl))
+		env.b.expManager.setNext(k.ne0)
+		for i := 0; i < verifDocSlots(env.db); i++ {
+			d := verifDocSlot(env.db, i)
+			verifAssume(verifImplies(verifAnd(d.Present, d.Exp > 0), verifAnd(k.ne0 != 0, int64(k.ne0) <= d.Exp)))
+		}
 	}
 	if mask&pC08 != 0 {
 		b2 := env.b.copy()
@@ -74,6 +98,9 @@ func (k *kvCtx) failed(label string) {
 	verifReach(label)
 	verifAssert(verifSameDB(k.env.db, k.snap), "an operation that returns an error changes nothing")
 	k.noEvents()
+	if k.want(pC10) && verifSymbolic() {
+		verifAssert(verifCommitCount(k.env.db) == k.cc0, "sym-only: a call that returns an error has committed nothing")
+	}
 }
 
 func (k *kvCtx) noEvents() {
@@ -139,6 +166,19 @@ func (k *kvCtx) mutated(post verifDoc, newCas bool) {
 	}
 	if k.want(pC08) && newCas {
 		k.checkEvents(post)
+	}
+	if k.want(pC10) && verifSymbolic() {
+		verifAssert(verifCommitCount(k.env.db) == k.cc0+1, "sym-only: every effect of a successful call (row, CAS, expiry, revision, both high-water marks) is made durable by exactly one commit, before the call returns")
+		verifAssert(!verifTxnOpen(k.env.db), "sym-only: no transaction left open")
+	}
+	if k.want(pC14) {
+		em := k.env.b.expManager
+		ne := *em.nextExp
+		verifAssert(verifImplies(post.Exp > 0, verifAnd(ne != 0, int64(ne) <= post.Exp, verifTimerArmed(em.timer))),
+			"after a write the expiry timer is armed at or before the document's expiry")
+		verifAssert(verifImplies(k.ne0 != 0, verifAnd(ne != 0, ne <= k.ne0, verifTimerArmed(em.timer))),
+			"a write never postpones an already scheduled expiration")
+		verifAssert(verifImplies(ne != 0, verifTimerWithin(em.timer, ne)), "sym-only: timer duration is at most (scheduled expiry - now)")
 	}
 	if k.want(pC05) {
 		verifAssert(post.Present, "mutated key exists")
